@@ -133,22 +133,23 @@ example : WFFcgi [{ name := [67, 79, 78, 84, 69, 78, 84, 95, 76, 69, 78, 71, 84,
   ⟨by decide, by decide, by decide, by decide, by decide, by decide, by unfold WFPieces; decide, by decide,
    by unfold WFPieces; decide, by decide, by decide⟩
 
-/-- **HTTP header lines round trip** (over the *generated* `parser::step()`): plain header lines (no CR, quote
-or comment character, not starting with a blank) written by the peer as `line CRLF … CRLF` reach the
+/-- **HTTP header lines round trip** (over the *generated* `parser::step()`): header lines (`PlainLine`: not empty,
+not starting with a blank, `Balanced` — any bytes, quoted strings `"…"` with `\c` escapes and comments `(…)` closed
+within the line, no CR outside them, no backslash-escaped byte ≥ 127) written by the peer as `line CRLF … CRLF` reach the
 per-header code of `some_headers_data_read` (`httpGotHeader`: request-line split / `parse_single_header`)
 unchanged, one by one and in order (`feedLines`); after the empty line `process_request` runs and the body
 is left unread in the buffer.  Together with `http_buffer_eq_stream` this holds for every segmentation.
-PARTIAL with respect to DESIGN's `http_roundtrip`: folded/quoted headers and the inverse of
-`parse_single_header`/`process_request` (canonical names, percent-decoding) are not part of this theorem. -/
+(Folding: `http_folded_lines_roundtrip`; the inverse of `parse_single_header`/`process_request`:
+`http_head_roundtrip`.) -/
 theorem http_header_lines_roundtrip (cfg : HttpCfg) (ls : List Bytes) (r r' : HttpReq) (body : Bytes)
-    (hw : ∀ l ∈ ls, PlainLine l) (hs : r.ps.state = Gen.ps_idle) (hu : r.ps.under = false) (hg : r.ps.unget = false)
-    (hf : feedLines r ls = some r') :
+    (hw : ∀ l ∈ ls, PlainLine l) (hs : r.ps.state = Gen.ps_idle) (hb : r.ps.bc = 0) (hu : r.ps.under = false)
+    (hg : r.ps.unget = false) (hf : feedLines r ls = some r') :
     hdrFlat cfg r (encLines ls ++ body) =
       (match httpProcess cfg { r' with ps := { r'.ps with state := Gen.ps_last_lf_exptected, rhdr := [] } } with
        | none => (.done .raw400, body)
        | some h => (.head h r'.is11, body)) := by
   unfold hdrFlat
-  rw [hdrLoopC_lines cfg ls r r' body hw hs hu hg hf]
+  rw [hdrLoopC_lines cfg ls r r' body hw hs hb hu hg hf]
   cases httpProcess cfg { r' with ps := { r'.ps with state := Gen.ps_last_lf_exptected, rhdr := [] } } with
   | none => rfl
   | some h => rfl
@@ -159,23 +160,23 @@ the unfolded value in `header_` — normalisation the code really applies: the C
 blank/tab that starts the continuation line is kept (RFC 7230 would allow replacing it by one SP) — and the
 look-ahead byte is pushed back.  A parser that does not treat HTAB (or SP) as a fold breaks this theorem. -/
 theorem http_folded_header_roundtrip (l : FLine) (hl : WFLine l) (c : UInt8) (hc : c ≠ 32 ∧ c ≠ 9) (rest : Bytes)
-    (ps : Gen.PState) (hs : ps.state = Gen.ps_idle) (hu : ps.under = false) (hg : ps.unget = false) :
+    (ps : Gen.PState) (hs : ps.state = Gen.ps_idle) (hb : ps.bc = 0) (hu : ps.under = false) (hg : ps.unget = false) :
     parserRun ps (l.wire ++ 13 :: 10 :: c :: rest) =
       (Gen.pr_got_header, { ps with state := Gen.ps_idle, rhdr := (natsOf l.value).reverse }, c :: rest) :=
-  parserRun_fline l hl c hc rest ps hs hu hg
+  parserRun_fline l hl c hc rest ps hs hb hu hg
 
 /-- header section with folded headers (any number of folds in any number of headers; with
 `http_buffer_eq_stream`: folds split across segments anywhere): every header reaches the per-header code with
 its unfolded value, in order; then `process_request`; the body is left unread. -/
 theorem http_folded_lines_roundtrip (cfg : HttpCfg) (ls : List FLine) (r r' : HttpReq) (body : Bytes)
-    (hw : ∀ l ∈ ls, WFLine l) (hs : r.ps.state = Gen.ps_idle) (hu : r.ps.under = false) (hg : r.ps.unget = false)
-    (hf : feedLines r (ls.map FLine.value) = some r') :
+    (hw : ∀ l ∈ ls, WFLine l) (hs : r.ps.state = Gen.ps_idle) (hb : r.ps.bc = 0) (hu : r.ps.under = false)
+    (hg : r.ps.unget = false) (hf : feedLines r (ls.map FLine.value) = some r') :
     hdrFlat cfg r (encFLines ls ++ body) =
       (match httpProcess cfg { r' with ps := { r'.ps with state := Gen.ps_last_lf_exptected, rhdr := [] } } with
        | none => (.done .raw400, body)
        | some h => (.head h r'.is11, body)) := by
   unfold hdrFlat
-  rw [hdrLoopC_flines cfg ls r r' body hw hs hu hg hf]
+  rw [hdrLoopC_flines cfg ls r r' body hw hs hb hu hg hf]
   cases httpProcess cfg { r' with ps := { r'.ps with state := Gen.ps_last_lf_exptected, rhdr := [] } } with
   | none => rfl
   | some h => rfl
@@ -413,6 +414,10 @@ example : WFLine { head := [65, 58, 32, 120, 44], tail := [[9, 121], [32, 122]] 
     rcases hp with rfl | rfl
     · exact ⟨by decide, by decide⟩
     · exact ⟨by decide, by decide⟩⟩
+
+/-- non-vacuity of `PlainLine` with a quoted string and a comment: `X: "a\"b; c" (d\)e)` -/
+example : PlainLine [88, 58, 32, 34, 97, 92, 34, 98, 59, 32, 99, 34, 32, 40, 100, 92, 41, 101, 41] :=
+  ⟨by decide, by decide, by decide⟩
 
 /-- non-vacuity of `PlainLine`: `GET / H` -/
 example : PlainLine [71, 69, 84, 32, 47, 32, 72] := ⟨by decide, by decide, by decide⟩
